@@ -88,7 +88,8 @@ int read_srec(const char *filename, Memory *memory)
     // If line doesn't start with S, ignore the line (this is a bad file maybe).
     if (ch != 'S')
     {
-      ignore_line(in);
+      // An empty line ends with the character just read.
+      if (ch != '\n') { ignore_line(in); }
       continue;
     }
 
